@@ -75,6 +75,9 @@ def base_spec(rng):
     if fmt != "fixed" and rng.random() < 0.2:
         # a sound CID whose example fits its field only together with its trailing blank
         fields.append({"name": "padded", "type": "Text", "length": "3", "example": "ab "})
+    if len(fields) >= 2 and rng.random() < 0.1:
+        # names are case-sensitive: a field may be called like another one in capitals
+        fields[1]["name"] = fields[0]["name"].upper()
     if rng.random() < 0.15:
         # soft keywords of Python are ordinary names
         fields[rng.randrange(len(fields))]["name"] = rng.choice(["match", "case", "type"])
